@@ -28,7 +28,6 @@ NOT_APPLICABLE = {
  "C13": "Unicode/UTF-16 round trip is a statement about values of code points and surrogate arithmetic over all scalar values; no structural clause whose breakage is visible in code shape.",
  "C14": "Date formatting/parsing equality over years 0-9999 and offsets is numeric/string-value behaviour; not decidable from code shape.",
  "C15": "Filter encode/decode identity over all byte strings and parameter sets is value behaviour of compression codecs.",
- "C16": "Exactness of the decode limit at the boundary is an off-by-one over runtime lengths; C09 decides only that a limit is consulted.",
  "C17": "Agreement with the PNG/TIFF predictor specifications is numeric behaviour.",
  "C19": "Write/read graph isomorphism quantifies over document contents.",
  "C21": "'Every output validates' quantifies over operation parameters and document contents; validator acceptance is runtime behaviour.",
